@@ -72,6 +72,17 @@ CLAIMED.update({
             API_NOTE, "DESIGN.md 4/C11"),
 })
 
+CLAIMED.update({
+    "C16": ("Coq theorems by induction over the operation history and over the insertion sort (permutation, sortedness, stability) + correspondence on exhaustive short and random long histories",
+            "C16_history (any operation sequence: each of the four sequences equals the plain-list fold), C16_filter, C16_filter_by_name, C16_len, C16_get_registers (permutation of all elements, ascending by sort key, stable per key) are proved for all histories and lists. The real RegisterList is compared with the model after every operation (Len) and at the end (four sequences, GetRegisters) on all sequences up to length 3/4 over 12 operations and random histories up to length 200; the combined view is also judged directly.",
+            "Trusted: Coq kernel, extraction, OCaml driver, Go harness. sort.SliceStable is modelled by a stable insertion sort (result specified by the theorem, not by the algorithm). Registers come from the exported families; predicates from fixed families.",
+            "DESIGN.md 4/C16"),
+    "C17": ("Coq theorem over an object-identity model of the copy discipline (partial by nature) + harness run of every lookup function x mutation history x later calls",
+            "C17_private_partial: in the model where each lookup allocates a fresh copy and callers address objects only, every later lookup returns the original data, for every history. Whether the Go code follows that discipline (no shared maps or backing arrays) cannot be expressed in a pure model; it is established by the run: product string map, 23 IntToStringMaps, Fields()/Decode() incl. raw value 0, per-product register lists of every class checked against every other product after each of eight list mutations, family lists.",
+            "Aliasing is runtime behaviour of Go's memory: the theorem documents the discipline, the harness carries the claim (labelled partial in the evidence).",
+            "DESIGN.md 4/C17"),
+})
+
 PENDING_REASON = "check not built yet in this session (work in progress; see DESIGN.md section 10)"
 
 
